@@ -1464,9 +1464,13 @@ class Interp:
             return Model(canon(kwargs.get("name", args[0] if args else "model")))
         if dotted == "range":
             return self.do_range(args, e)
-        if dotted == "enumerate" and len(args) == 1 and isinstance(args[0], (PList, tuple)) and not kwargs:
+        if dotted == "enumerate" and len(args) in (1, 2) and isinstance(args[0], (PList, tuple)) and not (set(kwargs) - {"start"}):
             items = args[0].items if isinstance(args[0], PList) else list(args[0])
-            return PList([(Rat.const(i), x) for i, x in enumerate(items)])
+            start = args[1] if len(args) == 2 else kwargs.get("start", Rat.const(0))
+            start = self.to_rat(start, e)
+            if not start.is_const():
+                raise Unsupported("enumerate from a start that is not a literal", e)
+            return PList([(Rat.const(start.as_int() + i), x) for i, x in enumerate(items)])
         if dotted == "zip" and len(args) >= 2 and all(isinstance(a, (PList, tuple)) for a in args) and not (set(kwargs) - {"strict"}):
             cols = [a.items if isinstance(a, PList) else list(a) for a in args]
             return PList([tuple(t) for t in zip(*cols)])
